@@ -119,7 +119,7 @@ PROPS["C08"] = dict(
          "non-trivial = non-empty string; distinct = hash set of (type, bytes)",
     assumptions=COMMON_ASSUMPTIONS + ["only success/failure, value and bytes consumed on success are compared; error texts and consumption on failure are not"],
     required=[("types_exercised", 200), ("distinct_stacks_seen", 150), ("zero_copy_observed", 50), ("accepted", 1000), ("rejected", 1000)],
-    stages=lambda tier: [native()] + ([miri(values=2)] if tier == "thorough" else []) + [asan(values=25 if tier == "quick" else 300)] + ([]),
+    stages=lambda tier: [native()] + ([miri(shards=64, values=2)] if tier == "thorough" else []) + [asan(values=25 if tier == "quick" else 300)] + ([]),
 )
 
 PROPS["C10"] = dict(
